@@ -73,10 +73,10 @@ CLAIMED = {
     ),
     "C05": (
         "proof",
-        "Coq proofs (induction over strings on a model of mdurl.encode; case analysis on the validator) with the URL re-formatting dependency as an arbitrary function + function-level differential correspondence + producer exploration on the implementation",
-        "Theorems for ALL strings of code points: every character mdurl.encode emits is URL-safe ASCII (letters, digits, ;/?:@&=+$,-_.!~*'()# and %), hence never a blank, control, quote, angle bracket, backslash, backtick or non-ASCII character (C05_encode_alphabet, C05_url_chars_are_inert); a URL over that alphabet accepted by validateLink does not begin, case-insensitively, with vbscript: javascript: or file:, and with data: only as data:image/gif|png|jpeg|webp; (C05_validated_scheme); composed for normalizeLink = encode o reformat with reformat arbitrary (C05_emitted_url_safe). Each run: mdurl.encode and validateLink (direct and regenerated-regex forms) vs the implementation on ~3000 (quick) strings incl. every scheme spelling; and on the implementation: all hrefs/srcs on tokens and re-parsed from rendered HTML for 19 producer forms (inline, <dest>, image, autolink, reference link/image/definition, inside containers, raw <a>) x spellings x configurations, plus 'a rejected construct stays as literal text'.",
-        "Trusted: Coq kernel; encode/validateLink models tied by sampled correspondence; producers (each validates separately and backs off to text) by exploration until the inline model is in (partial); linkify producers not exercisable here (linkify-it-py absent).",
-        "DESIGN.md §3 C05",
+        "End-to-end Coq theorem on the whole-pipeline model (every URL producer incl. references through env) + induction over strings on a model of mdurl.encode + case analysis on the validator + function-level and whole-pipeline differential correspondence + producer exploration on the implementation",
+        "Theorems: for EVERY source, every configuration and every env whose recorded destinations are themselves validated, each href / src attribute on each token parse() / parseInline() returns and on each child of an inline token is empty or equal to normalizeLink(x) for some x, with validateLink accepting it - whichever producer made it: inline destination, image, autolink, reference looked up in env, definition recorded by the block parser - and the env returned is again of that form (C05_parse_urls_validated, C05_parse_inline_urls_validated; all block rules, all inline rules with label / image recursion and skipToken, post-processing, core rules). Such a URL consists of URL-safe ASCII only: letters, digits, ;/?:@&=+$,-_.!~*'()# and % - never a blank, control, quote, angle bracket, backslash, backtick or non-ASCII character (C05_good_url_chars, C05_encode_alphabet, C05_url_chars_are_inert, for ALL strings, mdurl's re-formatting being an arbitrary function). A URL over that alphabet accepted by the validator (direct definition) does not begin, case-insensitively, with vbscript: javascript: file:, and with data: only as data:image/gif|png|jpeg|webp; (C05_validated_scheme, C05_emitted_url_safe). Each run: mdurl.encode and validateLink (direct and regenerated-regex forms, which the model's rules use) vs the implementation on ~3000 strings incl. every scheme spelling; whole-pipeline correspondence; and on the implementation all hrefs/srcs on tokens and re-parsed from rendered HTML for 19 producer forms x spellings (incl. references to blanks / controls at the end of a destination, scheme + whitelisted-data-prefix payloads) x configurations, plus 'a rejected construct stays as literal text'.",
+        "Trusted: Coq kernel; pipeline / encode / validateLink models tied by sampled correspondence; equality of the regex form and the direct form of validateLink is tested each run, not proved; linkify producers not exercisable here (linkify-it-py absent).",
+        "DESIGN.md §3 C05, §8.2",
     ),
     "C01": (
         "proof",
@@ -123,7 +123,7 @@ CLAIMED = {
     "C16": (
         "proof",
         "Coq proof of the reference rule's env discipline on the block model + whole-pipeline correspondence with seeded env + history / label / form oracles on the implementation",
-        "Theorem for ALL states: the reference rule only ever adds to env - an existing label is never overwritten, a later definition goes to duplicate_refs, and terminator probes and the paragraph scan leave env alone (C16_reference_env). The document-level statements are decided each run on the implementation: env histories (fresh / seeded once / seeded twice) vs one parse of (R + blank)* + D compared on HTML, tokens with shifted maps, all records (references + duplicate_refs) with maps in combined coordinates and winners; label variants (case folding incl. sharp s, sigma, digraphs, Kelvin sign, dotted i; blank runs incl. one line break) resolve; reference form = inline form for (text, destination, title) triples incl. escapes, entities, backslash-newline, links and images. The correspondence runs the model with the same seeded env and compares the resulting env.",
+        "Theorems: for a WHOLE parse - every source, env, configuration, core chain - the definitions already in env stay exactly where they are (a prefix of the new list: the first definition of a label wins, across parses too), each new entry is appended under a label that was absent, later definitions of a present label are appended to duplicate_refs, nothing is removed, every recorded destination is a validated normalizeLink result (C16_parse_env_extends, C16_block_parse_env_extends: all 11 block rules incl. containers and terminator chains). For ALL states the reference rule records exactly one definition with the map of its own lines per successful call and leaves env alone otherwise (C16_reference_env). The document-level statements are decided each run on the implementation: env histories (fresh / seeded once / seeded twice) vs one parse of (R + blank)* + D compared on HTML, tokens with shifted maps, all records (references + duplicate_refs) with maps in combined coordinates and winners; label variants (case folding incl. sharp s, sigma, digraphs, Kelvin sign, dotted i; blank runs incl. one line break) resolve; reference form = inline form for (text, destination, title) triples incl. escapes, entities, backslash-newline, links and images. The correspondence runs the model with the same seeded env and compares the resulting env.",
         "Trusted: Coq kernel; model tied by sampled correspondence; normalizeReference's case mapping is an opaque recorded table in the model; document-level equivalence by exploration (partial).",
         "DESIGN.md §3 C16",
     ),
